@@ -1,7 +1,7 @@
 (* C01/Carriers.v -- two further instances of the carrier class (definitions only).
 
-   * [Num_opt]: the POISONED carrier [option T].  [None] stands for NaN /
-     uninitialised memory; every arithmetic operation is strict in [None]
+   * [Num_opt]: the POISONED carrier [option T].  [None] stands for a non-finite value
+     (NaN, +-inf) or uninitialised memory; every arithmetic operation is strict in [None]
      (including multiplication by zero) and every comparison with [None] is
      false.  Used to state and to execute "the previous contents of [out]
      never influence the result".
@@ -16,9 +16,16 @@ Definition olift2 {A B C} (f : A -> B -> C) (a : option A) (b : option B) : opti
 Definition otest2 {A B} (f : A -> B -> bool) (a : option A) (b : option B) : bool :=
   match a, b with Some x, Some y => f x y | _, _ => false end.
 
+(* division by an exact zero gives inf or NaN: non-finite, hence [None] *)
+Definition odiv {T : Type} `{Num T} (a b : option T) : option T :=
+  match a, b with
+  | Some x, Some y => if neqb y (of_Z 0) then None else Some (x / y)
+  | _, _ => None
+  end.
+
 Global Instance Num_opt {T : Type} `{Num T} : Num (option T) := {|
   nzero := Some nzero; none_ := Some none_;
-  nadd := olift2 nadd; nsub := olift2 nsub; nmul := olift2 nmul; ndiv := olift2 ndiv;
+  nadd := olift2 nadd; nsub := olift2 nsub; nmul := olift2 nmul; ndiv := odiv;
   nopp := option_map nopp; nabs := option_map nabs;
   nltb := otest2 nltb; nleb := otest2 nleb; neqb := otest2 neqb;
   of_Z := fun z => Some (of_Z z) |}.
